@@ -41,6 +41,7 @@ type Contract struct {
 	Pure        bool // no effect on the modelled heap, result unconstrained except by ensures
 	Trusted     bool // contract is assumed (library / interface), never verified
 	NoInline    bool
+	Inlined     bool // verified on its own (its body is swept), but callers still see its body, not this contract
 	Safe        bool     // emit safe.* obligations for this function
 	Fresh       []string // result expressions that are freshly allocated
 	Props       []string // properties this function is verified for
@@ -102,7 +103,7 @@ func NewContractSet() *ContractSet {
 
 var labelRe = regexp.MustCompile(`^(\{[A-Z0-9, ]+\}\s*)?([A-Za-z][A-Za-z0-9_.\-]*):(\s|$)`)
 var propsRe = regexp.MustCompile(`^\{([A-Z0-9, ]+)\}\s*`)
-var keywordRe = regexp.MustCompile(`^(assumed|use|opaque|reveal|import|ghost|uninterp|spec|func|iface|requires|guard|ensures|modifies|loop|pure|trusted|noinline|safe|fresh|lemma|params|results|props|probe|implements)\b`)
+var keywordRe = regexp.MustCompile(`^(assumed|use|opaque|reveal|import|ghost|uninterp|spec|func|iface|requires|guard|ensures|modifies|loop|pure|trusted|noinline|inlined|safe|fresh|lemma|params|results|props|probe|implements)\b`)
 
 // LoadFile parses one contract file. pkgPath is the import path of the package the file sits in
 // ("" for library spec files, where names must be qualified). trusted marks every contract assumed.
@@ -325,6 +326,10 @@ func (cs *ContractSet) LoadFile(file, pkgPath string, trusted bool) error {
 		case "noinline":
 			if cur != nil {
 				cur.NoInline = true
+			}
+		case "inlined":
+			if cur != nil {
+				cur.Inlined = true
 			}
 		case "safe":
 			if cur != nil {
